@@ -328,8 +328,9 @@ def plan(tier, seed):
          ("complete", dict(skeleton="T5", args={"type1": "on-premise", "type2": "autoscaling", "fixed1": 40}, only=["srv", "srv2", "job", "job2", "up"]),
           dict(max_paths=300, max_seconds=220)),
          ("mock_dags", dict(nodes=3)), ("mock_dags", dict(nodes=4)), ("mock_dags", dict(nodes=5))]
-    for sk in ("T1", "T5", "T7", "T9"):
+    for sk in ("T1", "T5", "T7", "T9", "TX"):
         p.append(("consistent", dict(skeleton=sk)))
+    p.append(("complete", dict(skeleton="TX", only=["srv", "st", "job", "job3", "net", "up", "up2"]), dict(max_paths=300, max_seconds=220)))
     for sc in ([num("job", "data_transferred")], [num("job", "request_duration")], [num("srv", "ram")],
                [num("step", "user_time_spent")], [num("st", "data_storage_duration")]):
         p.append(("consistent", dict(skeleton="T1", script=sc)))
